@@ -604,17 +604,26 @@ def fine_stage(res, tier, seed, prop):
     from concurrent.futures import ThreadPoolExecutor
     plan = FINE_QUICK if tier == "quick" else FINE_THOROUGH
     invs = FINE_INVS.get(prop, ["NoOverlap", "NoPanic"])
-    work = [(g, n) for g, ns in plan.items() for n in ns]
-    fine = {"scenarios": 0, "states": 0, "generated": 0, "conforming_sequences": 0, "drift": [], "violations_replayed": []}
+    work = [(g, n, None) for g, ns in plan.items() for n in ns]
+    # plus a seeded sample of the synthesised scenarios (bin/scngen.py: allocator state x pair of operations / short programs)
+    import finesynth
+    sfiles = []
+    for g, cnt in (("th1", 12), ("th4", 12)) if tier == "quick" else (("th1", 150), ("th4", 150), ("th2", 60)):
+        sc = finesynth.sample(g, cnt, seed)
+        f = os.path.join(vlib.WORK, "finesynth-%s-%d.json" % (g, os.getpid()))
+        json.dump(sc, open(f, "w"))
+        sfiles.append(f)
+        work += [(g, x["name"], f) for x in sc]
+    fine = {"scenarios": 0, "synthesised": 0, "states": 0, "generated": 0, "conforming_sequences": 0, "drift": [], "violations_replayed": []}
 
     def one(gn):
-        g, n = gn
-        mod = mkmc.make(n, g, invariants=invs)
+        g, n, sf = gn
+        mod = mkmc.make(n, g, invariants=invs, scnfile=sf)
         if not mod:
             return None
-        rc, out, dt = vlib.tlc(mod, workers=4, xmx="8g", timeout=1500 if tier == "quick" else 5400)
+        rc, out, dt = vlib.tlc(mod, workers=4, xmx="8g", timeout=(300 if sf else 1500) if tier == "quick" else (1200 if sf else 5400))
         gen, dist = vlib.tlc_stats(out)
-        r = {"scn": n, "geo": g, "states": dist, "generated": gen, "s": round(dt, 1), "result": "ok"}
+        r = {"scn": n, "geo": g, "states": dist, "generated": gen, "s": round(dt, 1), "result": "ok", "scnfile": sf}
         err = re.search(r"Invariant (\w+) is violated", out)
         if err:
             r["result"] = "violated:" + err.group(1)
@@ -626,7 +635,16 @@ def fine_stage(res, tier, seed, prop):
             r["result"] = "error"
             r["detail"] = out[-800:]
         # step conformance of the real code against the model
-        c = fineconf.conform(g, n, bound=1 if tier == "quick" else 2, limit=150 if tier == "quick" else 2000)
+        if sf:
+            c = fineconf.conform(g, n, bound=1, limit=40 if tier == "quick" else 300, scnfile=sf)
+            for pre in ("MCgen_", "TFgen_"):
+                for ext in (".tla", ".cfg"):
+                    try:
+                        os.unlink(os.path.join(vlib.SPEC, pre + mkmc.modname(n) + "_" + g + ext))
+                    except OSError:
+                        pass
+        else:
+            c = fineconf.conform(g, n, bound=1 if tier == "quick" else 2, limit=150 if tier == "quick" else 2000)
         r["conf"] = c
         return r
 
@@ -634,6 +652,7 @@ def fine_stage(res, tier, seed, prop):
         rs = [r for r in ex.map(one, work) if r]
     for r in rs:
         fine["scenarios"] += 1
+        fine["synthesised"] += 1 if r.get("scnfile") else 0
         fine["states"] += r["states"]
         fine["generated"] += r["generated"]
         c = r["conf"]
@@ -644,17 +663,29 @@ def fine_stage(res, tier, seed, prop):
             log("MODEL-DRIFT: scenario %s (%s): the FINE model no longer describes the code at access %s: %s"
                 % (r["scn"], r["geo"], c.get("at"), c.get("event")))
         elif c.get("status") == "error":
-            raise vlib.ToolError("step conformance failed for %s: %s" % (r["scn"], c.get("detail")))
+            if r.get("scnfile"):
+                # the model cannot evaluate a synthesised scenario: incompleteness of the model, reported, never a verdict
+                log("MODEL-DRIFT: step conformance of synthesised scenario %s (%s) could not be evaluated: %s"
+                    % (r["scn"], r["geo"], (c.get("detail") or "")[-300:]))
+                fine["drift"].append({"scn": r["scn"], "geo": r["geo"], "event": "conformance run failed"})
+            else:
+                raise vlib.ToolError("step conformance failed for %s: %s" % (r["scn"], c.get("detail")))
         if r["result"] == "timeout":
             fine.setdefault("timeouts", []).append({"scn": r["scn"], "geo": r["geo"]})
             res.notes.append("FINE exhaustive run of %s (%s) did not finish within the time limit (inconclusive)" % (r["scn"], r["geo"]))
         if r["result"] == "error":
-            raise vlib.ToolError("FINE model check failed for %s/%s:\n%s" % (r["scn"], r["geo"], r.get("detail")))
+            if r.get("scnfile"):
+                log("MODEL-DRIFT: the FINE model could not be evaluated on synthesised scenario %s (%s): %s"
+                    % (r["scn"], r["geo"], (r.get("detail") or "")[-300:]))
+                fine["drift"].append({"scn": r["scn"], "geo": r["geo"], "event": "model evaluation failed"})
+            else:
+                raise vlib.ToolError("FINE model check failed for %s/%s:\n%s" % (r["scn"], r["geo"], r.get("detail")))
         if r["result"].startswith("violated"):
             # a design-level counterexample is believed only if it replays on the real code
             sched = ",".join(map(str, r["sched"]))
             out = os.path.join(vlib.WORK, "fine-replay-%s-%s-%d.ndjson" % (r["scn"], r["geo"], os.getpid()))
-            vlib.harness(r["geo"], ["conc", "scn=" + SCN, "name=" + r["scn"], "asched=" + sched, "out=" + out, "props=" + prop])
+            out = os.path.join(vlib.WORK, "fine-replay-%s-%s-%d.ndjson" % (mkmc.modname(r["scn"]), r["geo"], os.getpid()))
+            vlib.harness(r["geo"], ["conc", "scn=" + (r.get("scnfile") or SCN), "name=" + r["scn"], "asched=" + sched, "out=" + out, "props=" + prop])
             v = vlib.validate_file(out, [prop])
             os.unlink(out)
             mine = [f for f in v["failures"] if f["prop"] == prop]
@@ -668,13 +699,16 @@ def fine_stage(res, tier, seed, prop):
                 log("MODEL-DRIFT: FINE invariant %s fails in scenario %s (%s) but the schedule does not violate %s on the "
                     "real code: the model is stale" % (r["result"], r["scn"], r["geo"], prop))
                 fine["drift"].append({"scn": r["scn"], "geo": r["geo"], "event": "counterexample not reproducible"})
+    for f in sfiles:
+        if os.path.exists(f):
+            os.unlink(f)
     res.cov["states"] += fine["states"]
     res.cov["transitions"] += fine["generated"]
     res.cov["fine_model"] = fine
     res.cov["fine_invariants"] = invs
-    res.notes.append("FINE model LLFree.tla: %d scenarios exhaustively model-checked (%d distinct states), invariants %s; "
-                     "%d access sequences of the real code conform step by step; drift: %d"
-                     % (fine["scenarios"], fine["states"], invs, fine["conforming_sequences"], len(fine["drift"])))
+    res.notes.append("FINE model LLFree.tla: %d scenarios (%d of them synthesised by bin/scngen.py) exhaustively model-checked (%d "
+                     "distinct states), invariants %s; %d access sequences of the real code conform step by step; drift: %d"
+                     % (fine["scenarios"], fine["synthesised"], fine["states"], invs, fine["conforming_sequences"], len(fine["drift"])))
     return fine
 
 
